@@ -556,7 +556,7 @@ func runC11(c *Ctx) {
 		os.Exit(0)
 	}
 	c.Rep.Rule = "histories of 60..400 calls (quick) over a per-case pool of about 100 calls drawn from the whole public API: Marshal / MarshalIndent / MarshalWithOption (Colorize, UnorderedMap, DisableHTMLEscape, DisableNormalizeUTF8, Debug, DebugWith) / MarshalContext (context values, field queries) / MarshalNoEscape / one shared Encoder with changing settings; values from the generator grammar plus values that fail half-way (marshaler error inside a sorted map inside an interface, marshaler panic recovered by the caller, TextMarshaler key error, NaN, channel, cycle, invalid marshaler output, ill-formed Number), outputs from a few bytes to megabytes; Unmarshal / UnmarshalWithOption(FirstWin) / UnmarshalContext / UnmarshalNoEscape on valid documents, syntax errors, type errors, `,string` fields; Valid / Compact / Indent / HTMLEscape; shared compiled Paths (Extract, Unmarshal, Get, failing and succeeding); shared FieldQuery objects; one Decoder whose successive Decode calls use Decode / DecodeContext / DecodeWithOption(FirstWin). Oracle: every call of the history against the same call issued first in a fresh process with fresh handles (cold oracle); a Decoder call against a fresh Decoder on the remaining input. non-trivial = every call"
-	ncases := 24
+	ncases := 48
 	if c.Thorough() {
 		ncases = 600
 	}
@@ -631,6 +631,12 @@ func runC11(c *Ctx) {
 		}
 		for range calls {
 			<-done
+		}
+		// every other case: whatever goes back to a pool goes back filled with junk
+		json.VerifPoisonPools(k%2 == 1)
+		defer json.VerifPoisonPools(false)
+		if k%2 == 1 {
+			c.Rep.Hist["histories-with-poisoned-pools"]++
 		}
 		h := c11NewHandles(decDocs, 0)
 		decBroken := false
